@@ -381,12 +381,16 @@ func (response *InboundCallResponse) SendSystemError(err error) error {
 	response.state = reqResWriterComplete
 	response.systemError = true
 	response.setSpanErrorDetails(err)
+
+	// Queue the error frame before releasing the exchange: releasing the last
+	// exchange of a draining connection closes it, and the result would be lost.
+	span := CurrentSpan(response.mex.ctx)
+	sendErr := response.conn.SendSystemError(response.mex.msgID, *span, err)
+
 	response.doneSending()
 	response.call.releasePreviousFragment()
 
-	span := CurrentSpan(response.mex.ctx)
-
-	return response.conn.SendSystemError(response.mex.msgID, *span, err)
+	return sendErr
 }
 
 // SetApplicationError marks the response as being an application error.  This method can
